@@ -473,7 +473,8 @@ func gen(r *vlib.R, n int, tier string, emit func(string)) {
 	}
 }
 
-// witnessOps: the minimal shapes of the candidate findings, always run first.
+// witnessOps: the minimal shapes of the five findings fixed by /repo commit 4841eb0
+// (the exact validators must keep refusing them), always run first.
 func witnessOps() []string {
 	return []string{
 		// RFC 6840 4.1: ancestor delegation NSEC used to deny a name below the cut
